@@ -119,6 +119,14 @@ add("caller-result-from-the-pool","C04","schema.go","\tif s.Options.recycleResul
 add("setter-drops-its-argument","C10","spec.go","\ts.Options.ContinueOnErrors = c\n","","SETTER:(*SpecValidator).SetContinueOnErrors:c", quick=False)
 add("default-walker-skips-additional-items","C09","default_validator.go","\t\tres.Merge(d.validateDefaultValueSchemaAgainstSchema(path+\".additionalItems\", in, schema.AdditionalItems.Schema))\n","","TRAVERSE:", quick=False)
 add("required-not-defined-by-additional-schema","C03","spec.go","\t\t\t\tif red.IsValid() {\n\t\t\t\t\tadditionalPropertiesMatch = true","\t\t\t\tif red.IsValid() {\n\t\t\t\t\tadditionalPropertiesMatch = false","SPEC-PRED:(*SpecValidator).validateRequiredProperties:requiredButNotDefinedMsg", quick=False)
+add("only-the-first-response","C09","default_validator.go","\t\t\t\t\t\tres.Merge(d.validateDefaultInResponse(&r, \"response\", path, code, op.ID)) //#nosec\n","\t\t\t\t\t\tres.Merge(d.validateDefaultInResponse(&r, \"response\", path, code, op.ID)) //#nosec\n\t\t\t\t\t\tbreak\n","TRAVERSE:defaultValidator.validateDefaultValueValidAgainstSchema:loops-exhaustive", quick=False)
+add("caller-options-dropped","C02","slice_validator.go","\tif opts == nil {\n\t\topts = new(SchemaValidatorOptions)\n\t}","\topts = new(SchemaValidatorOptions)","OPTIONS-KEPT:newSliceValidator:fresh-options", quick=False)
+add("formatted-type-by-pointer-only","C16","type.go","\tcase strfmt.ISBN10, *strfmt.ISBN10:","\tcase *strfmt.ISBN10:","TYPE-TABLE:schemaInfoForType:value-and-pointer", quick=False)
+add("items-rule-inside-defaults","C03","object_validator.go","\tif o.isProperties() || o.isDefault() || o.isExample() {","\tif o.isProperties() || o.isExample() {","GUARD-SCOPE:exemption:items-type-array:all-three", quick=False)
+add("tuple-path-arguments-crossed","C17","slice_validator.go","\t\t\tvalidator := newSchemaValidator(&s.Items.Schemas[i], s.Root, fmt.Sprintf(\"%s.%d\", s.Path, i), s.KnownFormats, s.Options)","\t\t\tvalidator := newSchemaValidator(&s.Items.Schemas[i], s.Root, fmt.Sprintf(\"%s.%d\", i, s.Path), s.KnownFormats, s.Options)","K-CONSISTENT:(*schemaSliceValidator).Validate:member validated against s.Items.Schemas[]:path", quick=False)
+add("invalid-reference-only-warned","C03","spec.go","\t\t\tres.AddErrors(invalidRefMsg(r.String()))","\t\t\tres.AddWarnings(invalidRefMsg(r.String()))","SPEC-PRED:(*SpecValidator).validateReferencesValid:invalidRefMsg:as-error", quick=False)
+add("unique-items-looks-at-one-element","C14","values.go","\t\tunique = append(unique, v)\n","\t\tunique = append(unique, v)\n\t\tbreak\n","DEAD-TAIL:UniqueItems:loop-runs-once", quick=False)
+add("visited-pair-of-one-container","C14","values.go","\t\tpair := [2]uintptr{av.Pointer(), bv.Pointer()}\n\t\tif _, again := visiting[pair]; again {\n\t\t\treturn true\n\t\t}\n\t\tvisiting[pair] = struct{}{}\n\t\tfor i := 0; i < av.Len(); i++ {","\t\tpair := [2]uintptr{av.Pointer(), av.Pointer()}\n\t\tif _, again := visiting[pair]; again {\n\t\t\treturn true\n\t\t}\n\t\tvisiting[pair] = struct{}{}\n\t\tfor i := 0; i < av.Len(); i++ {","DATA-WALK:valuesEqualVisiting:visited", quick=False)
 json.dump(C, open('/verif/tables/controls.json','w'), indent=1)
 import os
 for c in C:
